@@ -307,6 +307,13 @@ func c13Run(c c13Case) (sig string, err error) {
 			return "followup-fails", rerr
 		}
 	}
+	// also a request that itself contains a Discover Versions item (next to another one): it is a request like any other
+	if perr := safely(func() error {
+		_, _ = cl.Batch(context.Background(), &payloads.ActivateRequestPayload{UniqueIdentifier: "x"}, &payloads.DiscoverVersionsRequestPayload{})
+		return nil
+	}); perr != nil {
+		return "followup-panics", perr
+	}
 	var clone *kmipclient.Client
 	if perr := safely(func() error { var e error; clone, e = cl.Clone(); return e }); perr != nil {
 		return "clone-fails", perr
@@ -318,8 +325,8 @@ func c13Run(c c13Case) (sig string, err error) {
 	_, _ = clone.Request(context.Background(), &payloads.ActivateRequestPayload{UniqueIdentifier: "x"})
 	srv.mu.Lock()
 	defer srv.mu.Unlock()
-	if len(srv.versions) != 3 {
-		return "followup-count", fmt.Errorf("server saw %d follow-up requests, want 3", len(srv.versions))
+	if len(srv.versions) != 4 {
+		return "followup-count", fmt.Errorf("server saw %d follow-up requests, want 4", len(srv.versions))
 	}
 	for _, v := range srv.versions {
 		if v != got {
@@ -332,7 +339,7 @@ func c13Run(c c13Case) (sig string, err error) {
 func TestC13Negotiation(t *testing.T) {
 	const name = "TestC13Negotiation"
 	rec := evid.New("C13", name, "exhaustive: 31 non-empty client sets x 32 server sets x 6 server behaviours (conformant descending intersection, discovery unsupported, lists versions not offered, unordered list, empty list, the library's own BatchExecutor restricted to the set, also after an earlier client with another set has negotiated with the same executor) without enforcement, "+
-		"plus the same client set handed over through up to five other option layouts (descending, one WithKmipVersions option per version, two halves, highest first with a duplicate, rotated) against the conformant, unordered and library servers, plus clients created with DialCluster against the conformant, discovery-less and library servers, plus 31 x 32 x 5 enforced versions against the conformant server; each followed by two requests and a clone; oracle: pure function of the configuration (highest common version / fallback to 1.0 / failure); "+
+		"plus the same client set handed over through up to five other option layouts (descending, one WithKmipVersions option per version, two halves, highest first with a duplicate, rotated) against the conformant, unordered and library servers, plus clients created with DialCluster against the conformant, discovery-less and library servers, plus 31 x 32 x 5 enforced versions against the conformant server; each followed by two requests, a batch containing a Discover Versions item, and a clone; oracle: pure function of the configuration (highest common version / fallback to 1.0 / failure); "+
 		"non-trivial = the intersection has >= 2 elements, or the server lists a version outside the client's set, or the list is unordered; distinct by case").Attach(t)
 	rec.Exhaustive(true)
 	if rp := evid.LoadReplay(name); rp != nil {
